@@ -72,6 +72,7 @@ type unitResult struct {
 	Name        string   `json:"function"`
 	Pos         string   `json:"pos"`
 	Mode        string   `json:"arith"`
+	Contract    string   `json:"contract,omitempty"`
 	Paths       int      `json:"paths"`
 	Obligations int      `json:"obligations"`
 	Discharged  int      `json:"discharged"`
